@@ -98,6 +98,10 @@ static void modelTest(const Desc& d, const Vec<int>& testGroups, const Vec<int>&
                 if (o.kind == K_FAIL_CPP && (o.a == 24 || o.a == 25 || o.a == 27)) { f.diffAt = operandPair(o.b).at; f.pair = (int)(o.b % N_OPERAND_PAIRS); }
                 x.fails.push_back(f); term = true; break;
             }
+            case K_MISUSE_FREE: {      // reported by the detector through the leak plugin's reporter: one failure at the test itself, the phase is left
+                ExpFail f; f.token = "Deallocating non-allocated memory"; f.line = 0; f.testName = formattedName(T); f.anyLocation = true; f.kind = 5;
+                x.fails.push_back(f); term = true; break;
+            }
             case K_ADD_FAILURES: {       // recorded, printed, and the phase goes on
                 for (int64_t n = 0; n < o.a; n++) { ExpFail f; f.token = o.s2; f.file = file; f.line = (size_t)o.d; f.testName = formattedName(T); f.anyLocation = false; f.kind = 0; x.fails.push_back(f); }
                 break;
@@ -520,6 +524,10 @@ void checkOracles(const Desc& d, const Obs& o, RunResult& r) {
                 if (ef.diffAt >= 0 && fr.msg.find(sfmt("difference starts at position %d at:", ef.diffAt)) == Str::npos) r.fail("C14", "difference_position", sfmt("test %d failure %zu: the operands differ first at index %d: %s", st.test, i, ef.diffAt, fr.msg.c_str()));
                 if (!ef.anyLocation && (fr.file != ef.file || fr.line != ef.line)) r.fail(prop, "failure_location", sigOf("kind", sfmt("%d", ef.kind)), sfmt("test %d failure %zu at %s:%zu, expected %s:%zu", st.test, i, fr.file.c_str(), fr.line, ef.file.c_str(), ef.line));
                 if (fr.testName != ef.testName) r.fail(prop, "failure_owner", sfmt("failure attributed to %s, expected %s", fr.testName.c_str(), ef.testName.c_str()));
+                if (ef.kind == 5) {      // what the detector says about a misuse is about that misuse: no block of any test is listed in it
+                    Vec<LeakEntry> ents; long total = -1; parseLeakReport(fr.msg, ents, total);
+                    if (!ents.empty() || total >= 0) r.fail("C07", "leak_report", sigOf("what", "a misuse failure lists leaked blocks"), sfmt("test %d: %s", st.test, fr.msg.substr(0, 300).c_str()));
+                }
                 if (ef.kind == 4) {
                     // the report must list exactly the blocks this test still holds
                     Vec<Str> want, got;
